@@ -53,6 +53,15 @@ def sym_max(a, b):
     return Lin.sym(name)
 
 
+def sym_min(a, b):
+    if a == b:
+        return a
+    a, b = sorted([a, b], key=repr)
+    name = "min(%r, %r)" % (a, b)
+    SYMDEFS[name] = ("min", a, b)
+    return Lin.sym(name)
+
+
 def sym_prod(a, b):
     a, b = sorted([a, b], key=repr)
     name = "(%r)*(%r)" % (a, b)
@@ -135,6 +144,8 @@ class Env:
                 return a * b
             if d[0] == "max":
                 return max(a, b)
+            if d[0] == "min":
+                return min(a, b)
             if b == 0:
                 raise Uneval(s)
             if d[0] == "mod":
@@ -395,7 +406,7 @@ def subst_val(v, mapping):
                      {k: x.subst(mapping) for k, x in v.binding.items()}, v.seq, v.atoms)
     if isinstance(v, Flat):
         b = subst_val(v.base, mapping)
-        return Flat(b, v.keep) if b is not v.base else v
+        return Flat(b, v.keep, v.order) if b is not v.base else v
     return v
 
 
@@ -512,6 +523,22 @@ class Buf(Nd):
                 yield dict(mapping)
                 return
             lp = st.loops[i]
+            if lp.var is not None and isinstance(lp.it, (Vec, FHV)):
+                vec = lp.it.vec if isinstance(lp.it, FHV) else lp.it
+                v = list(lp.var.symbols())[0]
+                vals_ = q.env.vecs.get(vec.base, CONST_VECS.get(vec.base))
+                if vals_ is None or vec.neg:
+                    raise Uneval("loop over vector")
+                for x in reversed(sorted(vals_)):
+                    if limit is not None and v in limit:
+                        cur, seq = limit[v]
+                        c = q.env.eval(cur)
+                        if x > c or (x == c and not st.seq < seq):
+                            continue
+                    mapping[v] = Lin.c(x)
+                    yield from rec(i + 1, mapping)
+                mapping.pop(v, None)
+                return
             if lp.var is None or not isinstance(lp.it, Rng):
                 raise Uneval("loop")
             v = list(lp.var.symbols())[0]
@@ -780,6 +807,27 @@ class Tile(Nd):
         return "Tile(%r x %r)" % (self.base, self.reps)
 
 
+class RepEach(Nd):
+    """``np.repeat(A, r)`` of a 1-d term: every element repeated r times in place."""
+
+    def __init__(self, base, reps):
+        self.base, self.reps = base, as_lin(reps)
+        self.shape = (mul_lin(self.reps, base.shape[0]),)
+
+    def cell(self, coords, q, **kw):
+        if not q.concrete:
+            return None
+        if not q.inrange(coords[0], ZERO, self.shape[0]):
+            return OOB
+        r = q.env.eval(self.reps)
+        if r <= 0:
+            return OOB
+        return self.base.cell([Lin.c(q.env.eval(coords[0]) // r)], q, **kw)
+
+    def __repr__(self):
+        return "RepEach(%r x %r)" % (self.base, self.reps)
+
+
 class Rep(Nd):
     """``np.repeat(scalar, n)`` / ``np.full(n, scalar)`` with a non-constant scalar."""
 
@@ -801,8 +849,8 @@ class Flat(Nd):
     flattened row-major.  ``keep_const`` = 1 when the leading axis is the literal 1 of a
     one-row array (``reshape(1, -1)``)."""
 
-    def __init__(self, base, keep):
-        self.base, self.keep = base, keep
+    def __init__(self, base, keep, order="C"):
+        self.base, self.keep, self.order = base, keep, order
         tail = ONE
         for s in base.shape[keep:]:
             tail = mul_lin(tail, s)
@@ -821,6 +869,11 @@ class Flat(Nd):
             if not (0 <= f < tot):
                 return OOB
             cc = []
+            if self.order == "F":
+                for d in dims:
+                    cc.append(Lin.c(f - d * (f // d)))
+                    f = f // d
+                return self.base.cell(lead + cc, q, **kw)
             for d in reversed(dims):
                 cc.append(Lin.c(f - d * (f // d)))
                 f = f // d
@@ -1256,6 +1309,7 @@ class AInterp(Interp):
             if shp is None:
                 return Opq(ext, args)
             b = Buf(shp, {"numpy.zeros": 0, "numpy.ones": 1}.get(ext, "uninit"), e)
+            b.dtype = kwargs.get("dtype", args[1] if len(args) > 1 else None)
             self.bufs.append(b)
             return b
         if ext == "numpy.full" and len(args) >= 2:
@@ -1318,6 +1372,8 @@ class AInterp(Interp):
             n = as_lin_val(kwargs.get("repeats", args[1] if len(args) > 1 else None))
             if n is not None and not isinstance(args[0], Nd):
                 return Rep(args[0], n)
+            if n is not None and isinstance(args[0], Nd) and args[0].ndim == 1 and "axis" not in kwargs:
+                return RepEach(args[0], n)
             return Opq(ext, args)
         if ext in ("numpy.nanmean", "numpy.mean") and args and isinstance(args[0], Nd):
             ax = kwargs.get("axis", args[1] if len(args) > 1 else None)
@@ -1348,6 +1404,18 @@ class AInterp(Interp):
             x, y = as_lin_val(args[0].args[0]), as_lin_val(args[0].args[1])
             if x is not None and y is not None:
                 return sym_div("floor", x, y)  # exact for non-negative operands (window / sp arithmetic)
+        if ext in ("builtins.max", "builtins.min", "numpy.maximum", "numpy.minimum") and len(args) == 2 and not kwargs:
+            a, b = as_lin_val(args[0]), as_lin_val(args[1])
+            if a is not None and b is not None:
+                if "max" in ext:
+                    m = sym_max(a, b)
+                    st.facts.add_cmp(m, ">=", a, "max(a, b) >= a")
+                    st.facts.add_cmp(m, ">=", b, "max(a, b) >= b")
+                else:
+                    m = sym_min(a, b)
+                    st.facts.add_cmp(m, "<=", a, "min(a, b) <= a")
+                    st.facts.add_cmp(m, "<=", b, "min(a, b) <= b")
+                return m
         if ext in ("numpy.asarray", "numpy.array") and args and isinstance(args[0], Nd):
             return args[0]
         return NotImplemented
@@ -1384,7 +1452,11 @@ class AInterp(Interp):
                     return recv
                 return Flat(recv, 0)
             if meth == "reshape":
-                return self.reshape(recv, args, st)
+                order = kwargs.get("order", K("C"))
+                extra = {k for k in kwargs if k != "order"}
+                if extra or not (isinstance(order, K) and order.v in ("C", "F")):
+                    return Opq("reshape", [recv] + list(args))
+                return self.reshape(recv, args, st, order.v)
         if isinstance(recv, FHV):
             if meth == "to_relative":
                 return recv if recv.relative else Opq("fh.to_relative(abs)")
@@ -1405,7 +1477,14 @@ class AInterp(Interp):
                 return Opq("fh.to_indexer(from_cutoff=?)")
         return super().method_call(recv, meth, args, kwargs, e, st, frame)
 
-    def reshape(self, a, args, st):
+    def reshape(self, a, args, st, order="C"):
+        if order != "C":
+            r = self.reshape(a, args, st)
+            if isinstance(r, Flat):
+                return Flat(r.base, r.keep, order)
+            if isinstance(r, View):
+                return r  # adding an axis of length 1 to a 1-d array: order-independent
+            return Opq("reshape-order-F", [a] + list(args))
         if len(args) == 1 and isinstance(args[0], Tup):
             args = args[0].items
         ls = [as_lin_val(x) for x in args]
